@@ -4,6 +4,17 @@
 pub mod syntax {
     use super::*;
     pub enum Exchange { Total(expr::ValueExpr), Rate(expr::ValueExpr) }
+    // top-level entries: the directive payloads are extracted from syntax.rs (units below); the enum itself is
+    // generic over the decoration and is re-stated with the same variant names
+    pub enum LedgerEntry {
+        Txn(self::tracked::Transaction),
+        Comment(String),
+        ApplyTag(String),
+        EndApplyTag,
+        Include(String),
+        Account(super::AccountDeclaration),
+        Commodity(super::CommodityDeclaration),
+    }
     pub mod tracked {
         use super::super::*;
         #[verifier::external_body]
@@ -19,6 +30,7 @@ pub mod syntax {
         pub struct PostingAmount { pub amount: Tracked<expr::ValueExpr>, pub cost: Option<Tracked<super::Exchange>>, pub lot: Lot }
         pub struct Posting { pub account: Tracked<String>, pub amount: Option<PostingAmount>, pub balance: Option<Tracked<expr::ValueExpr>> }
         pub struct Transaction { pub date: NaiveDate, pub posts: Vec<Tracked<Posting>> }
+        pub type LedgerEntry = super::LedgerEntry;
     }
 }
 
